@@ -147,6 +147,16 @@ theorem reachW_cinv {cfg : Cfg} (hrf : cfg.removeFirst = true) (hpf : cfg.putFir
         rcases hg' with hg' | hg'
         · exact Or.inl hg'
         · exact Or.inr (get_del_some _ _ _ _ hg')
+    | outLink o t =>
+      simp only [World.apply]
+      split
+      · exact ih
+      · exact ih.write o _ rfl
+    | cacheExpire =>
+      exact {
+        fresh := ih.fresh
+        recs := by intro d b hb; simp [World.apply, AL.get] at hb
+        content := by intro d b hb; simp [World.apply, AL.get] at hb }
     | outRestore o =>
       simp only [World.apply]
       split
